@@ -60,6 +60,10 @@ func init() {
 		w := c08bw(a)
 		return Int(bytes.Compare(w.FromStr(a[1].Str()), w.FromStr(a[2].Str())))
 	}
+	Exec["bitword.FromStr/ToStr"] = func(a []V) string {
+		w := c08bw(a)
+		return Bytes(w.FromStr(w.ToStr(a[1].Bytes())))
+	}
 	Exec["bitword.Get/any"] = Exec["bitword.Get"]
 	Exec["bitword.FirstDiff/any"] = Exec["bitword.FirstDiff"]
 	Exec["bitword.ToStr/any"] = Exec["bitword.ToStr"]
@@ -157,6 +161,12 @@ func genC08(g *Gen) {
 			key = fmt.Sprintf("to/n%d/partial%d/bytes%s/nz%v", n, len(ws)%m, c08LenClass((len(ws)+m-1)/m), nz)
 		}
 		g.Do("bitword.ToStr", L(Int(n), Bytes(ws)), key)
+		if len(ws) <= 4096 {
+			if key != "" {
+				key = "rt2" + key[2:]
+			}
+			g.Do("bitword.FromStr/ToStr", L(Int(n), Bytes(ws)), key)
+		}
 	}
 	// naive first difference, only for the shape key
 	firstDiff := func(n int, a, b []byte, from, end int, bucket string) {
